@@ -169,6 +169,19 @@ def struct_tree_field(m, tid, derived_only=True):
     return any(scan(c if isinstance(c, dict) else m.dm[c]) for c in m.descendants(tid))
 
 
+def shape_of_tree(m, pid):
+    """depth / constraint kinds / payload sizing of the inheritance tree below pid"""
+    def dep(x):
+        return 1 + max([dep(k["id"]) for k in A.children_of(m.file, x)], default=0)
+    kinds = set()
+    for c in m.descendants(pid):
+        c = c if isinstance(c, dict) else m.dm[c]
+        for cc in c.get("constraints", ()):
+            kinds.add("enum" if cc.get("tag_id") else "scalar")
+    return "depth%d:%s:%s" % (dep(pid) - 1, "+".join(sorted(kinds)) or "unconstrained",
+                              "sized" if m.payload_size_field(m.dm[pid]) else "unsized")
+
+
 def type_constructs(m, tid):
     """sorted set of construct descriptors in a type (own + ancestors + nested structs, 1 level)."""
     d = m.dm[tid]
